@@ -650,7 +650,7 @@ def run(ctx):
     r01fgh(ctx)
 
 
-from ..selftest import Seed, rename_seed, unparse_seed  # noqa: E402
+from ..selftest import Seed, unparse_seed  # noqa: E402
 
 _T = "src/odfdo/table.py"
 _R = "src/odfdo/row.py"
@@ -712,7 +712,7 @@ SEEDS = [
     Seed("Table.set_values does not advance on empty rows", "fault", _T,
          "        for row_values in values:\n            y += 1\n            if not row_values:\n                continue\n            row = self.get_row(y, clone=True)",
          "        for row_values in values:\n            if not row_values:\n                continue\n            y += 1\n            row = self.get_row(y, clone=True)", "R01h"),
-    unparse_seed(_T), unparse_seed(_R), unparse_seed(_EC), rename_seed(_T), rename_seed(_R), rename_seed(_EC),
+    unparse_seed(_T), unparse_seed(_R), unparse_seed(_EC),
     Seed("un-repeat written with inverted test", "neutral", _T,
          "            repeated = row.repeated or 1\n            if repeated >= 2:\n                row.repeated = None\n            row.set_cells(row_cells, start=x, clone=clone)",
          "            repeated = row.repeated or 1\n            if repeated < 2:\n                pass\n            else:\n                row.repeated = None\n            row.set_cells(row_cells, start=x, clone=clone)"),
